@@ -52,7 +52,35 @@ def _len_key(e):
     return None
 
 
-def analyse(fn):
+def _helper_modulus(call, inf):
+    """the modulus argument when `call` resolves to one repository helper of the form `return (<expr>) % <param>`"""
+    if inf is None or not isinstance(call, ast.Call):
+        return None
+    tgs = inf.targets(call, ("call",))
+    if len(tgs) != 1:
+        return None
+    g = tgs[0]
+    body = [st for st in g.node.body if not (isinstance(st, ast.Expr) and isinstance(st.value, ast.Constant))]
+    if len(body) != 1 or not isinstance(body[0], ast.Return):
+        return None
+    r = body[0].value
+    if not (isinstance(r, ast.BinOp) and isinstance(r.op, ast.Mod) and isinstance(r.right, ast.Name)):
+        return None
+    ps = [a.arg for a in g.node.args.posonlyargs + g.node.args.args]
+    if g.kind in ("method", "getter", "setter", "class") and isinstance(call.func, ast.Attribute) and ps:
+        ps = ps[1:]
+    if r.right.id not in ps:
+        return None
+    i = ps.index(r.right.id)
+    if i < len(call.args):
+        return call.args[i]
+    for k in call.keywords:
+        if k.arg == r.right.id:
+            return k.value
+    return None
+
+
+def analyse(fn, inf=None):
     """[(node, sequence text, modulus text, ok, why)] for every modular index in fn"""
     uf = UF()
     body = fn.node
@@ -123,6 +151,9 @@ def analyse(fn):
         """(modulus expr) if idx is `(..) % m`, following one level of local names"""
         if isinstance(idx, ast.BinOp) and isinstance(idx.op, ast.Mod):
             return idx.right
+        hm = _helper_modulus(idx, inf)
+        if hm is not None:
+            return hm
         if isinstance(idx, ast.Name) and depth < 2:
             vals = [v for v in defs.get(idx.id, []) if not isinstance(v, tuple)]
             mods = [modulus_of(v, depth + 1) for v in vals]
